@@ -69,3 +69,84 @@ fn e_comp0_raw_n0() {
 fn e_comp0_zlib_n3() {
     one_shot(true, 3)
 }
+
+/// C12 (+C02/C09): a flush call at level 0 that consumes everything with space to spare:
+/// the bytes emitted so far decode (independent stored decoder) to all input so far; Sync/Full end
+/// with the empty stored block 00 00 FF FF on a byte boundary; then Finish completes the one stream.
+fn flush_then_finish(zlib: bool, flush: TDEFLFlush, n1: usize, n2: usize) {
+    let data: [u8; 4] = kani::any();
+    let flags = create_comp_flags_from_zip_params(0, zlib as i32, 0);
+    let mut c = CompressorOxide::new(flags);
+    let mut out = [0u8; 40];
+    let (st, cin, cout) = compress(&mut c, &data[..n1], &mut out, flush);
+    assert!(st == TDEFLStatus::Okay);
+    assert!(cin == n1 && cout <= 40);
+    let d = stored_decode_ref(&out[..cout], zlib);
+    assert!(d.ok && !d.complete);
+    assert!(d.finals == 0);
+    assert!(d.n == n1);
+    let mut i = 0;
+    while i < n1 {
+        assert!(d.data[i] == data[i]);
+        i += 1;
+    }
+    let marker = flush == TDEFLFlush::Sync || flush == TDEFLFlush::Full;
+    if marker {
+        assert!(d.consumed == cout); // whole blocks only: ends on a byte boundary
+        assert!(cout >= 4 && out[cout - 4] == 0 && out[cout - 3] == 0 && out[cout - 2] == 0xFF && out[cout - 1] == 0xFF);
+        assert!(c.unwritten_bit_count() == 0);
+    }
+    if zlib {
+        assert!(c.adler32() == adler32_ref(1, &data[..n1]));
+    }
+    // second call: the rest + Finish; header is not repeated, one final block, whole stream decodes to all input
+    let (st2, cin2, cout2) = compress(&mut c, &data[n1..n1 + n2], &mut out[cout..], TDEFLFlush::Finish);
+    assert!(st2 == TDEFLStatus::Done && cin2 == n2);
+    let all = stored_decode_ref(&out[..cout + cout2], zlib);
+    assert!(all.ok && all.complete && all.finals == 1);
+    assert!(all.consumed == cout + cout2);
+    assert!(all.n == n1 + n2);
+    let mut j = 0;
+    while j < n1 + n2 {
+        assert!(all.data[j] == data[j]);
+        j += 1;
+    }
+    kani::cover!(cout2 > 0);
+}
+
+#[kani::proof]
+#[kani::unwind(300)]
+fn e_comp0_sync_raw_1_1() {
+    flush_then_finish(false, TDEFLFlush::Sync, 1, 1)
+}
+
+#[kani::proof]
+#[kani::unwind(300)]
+fn e_comp0_full_zlib_1_1() {
+    flush_then_finish(true, TDEFLFlush::Full, 1, 1)
+}
+
+#[kani::proof]
+#[kani::unwind(300)]
+fn e_comp0_sync_zlib_0_1() {
+    // flush before any input: the header must still come out exactly once
+    flush_then_finish(true, TDEFLFlush::Sync, 0, 1)
+}
+
+#[kani::proof]
+#[kani::unwind(300)]
+fn e_comp0_none_then_finish_raw_2_0() {
+    // no flush: nothing need be emitted, but nothing may be lost either
+    let data: [u8; 2] = kani::any();
+    let flags = create_comp_flags_from_zip_params(0, 0, 0);
+    let mut c = CompressorOxide::new(flags);
+    let mut out = [0u8; 24];
+    let (st, cin, cout) = compress(&mut c, &data, &mut out, TDEFLFlush::None);
+    assert!(st == TDEFLStatus::Okay && cin == 2 && cout <= 24);
+    let (st2, cin2, cout2) = compress(&mut c, &[], &mut out[cout..], TDEFLFlush::Finish);
+    assert!(st2 == TDEFLStatus::Done && cin2 == 0);
+    let all = stored_decode_ref(&out[..cout + cout2], false);
+    assert!(all.ok && all.complete && all.finals == 1 && all.n == 2);
+    assert!(all.data[0] == data[0] && all.data[1] == data[1]);
+    assert!(all.consumed == cout + cout2);
+}
